@@ -59,6 +59,14 @@ func (p *Provider) Provide(w io.WriteSeeker) (retErr error) {
 		if _, err := w.Seek(0, io.SeekStart); err != nil {
 			return err
 		}
+		// Start from an empty destination. An earlier, failed attempt may have
+		// written part of a backup, and a shorter backup written now would
+		// otherwise be followed by those stale bytes.
+		if t, ok := w.(interface{ Truncate(size int64) error }); ok {
+			if err := t.Truncate(0); err != nil {
+				return err
+			}
+		}
 		err := p.str.Backup(context.Background(), br, w)
 		if err == nil {
 			break
